@@ -299,10 +299,13 @@ Proof.
 Qed.
 
 (* ---------------- J, M of the full-angle segment; corner sums *)
+Lemma Rnleb_true a b : nleb RNum a b = true <-> a <= b.
+Proof. simpl. destruct (Rle_dec a b); split; intros; auto; try discriminate; contradiction. Qed.
+
 Lemma cyl_inside_gen_R (pre : bool) (r z d h : R) : 0 < d ->
   @cyl_inside_gen RNum pre r z d h = true <-> (Rabs z <= h / 2 /\ r <= d / 2).
 Proof.
-  intros Hd. unfold cyl_inside_gen. cbn [ndiv nabs nleb nofZ RNum].
+  intros Hd. unfold cyl_inside_gen.
   assert (H0 : 0 < d / 2) by lra.
   assert (Hz : Rabs (z / (d / 2)) = Rabs z / (d / 2)).
   { unfold Rdiv at 1. rewrite Rabs_mult, Rabs_inv, (Rabs_pos_eq (d / 2)) by lra. reflexivity. }
@@ -314,18 +317,9 @@ Proof.
   { split; intros H.
     - apply (Rmult_le_reg_r (/ (d / 2))); [apply Rinv_0_lt_compat; lra|]. unfold Rdiv in H. rewrite Rinv_r by lra. exact H.
     - apply (Rmult_le_reg_r (d / 2)); [lra|]. unfold Rdiv. rewrite Rmult_assoc, Rinv_l by lra. lra. }
-  rewrite andb_true_iff. rewrite Hz.
-  destruct pre.
-  - destruct (Rle_dec (Rabs z) (h / 2)) as [H1|H1]; destruct (Rle_dec (r / (d / 2)) 1) as [H2|H2];
-      split; intros [Ha Hb]; try discriminate; try (split; reflexivity); try tauto.
-    + split; [exact H1|apply Hr; exact H2].
-    + exfalso. apply H2. apply Hr. exact Hb.
-  - destruct (Rle_dec (Rabs z / (d / 2)) (h / 2 / (d / 2))) as [H1|H1]; destruct (Rle_dec (r / (d / 2)) 1) as [H2|H2];
-      split; intros [Ha Hb]; try discriminate; try (split; reflexivity).
-    + split; [apply Hs; exact H1|apply Hr; exact H2].
-    + exfalso. apply H2. apply Hr. exact Hb.
-    + exfalso. apply H1. apply Hs. exact Ha.
-    + exfalso. apply H1. apply Hs. exact Ha.
+  rewrite andb_true_iff. destruct pre; rewrite !Rnleb_true; cbn [ndiv nabs nofZ RNum].
+  - rewrite Hr. tauto.
+  - rewrite Hz, Hs, Hr. tauto.
 Qed.
 
 Lemma cyl_inside_R (r z d h : R) : 0 < d ->
